@@ -123,9 +123,11 @@ Judge(a) ==
                      ELSE IF scan.st # <<>> THEN {"bracket never closed: token " \o scan.st[1]} ELSE {}
 
       (* AstForest: operand and parent edges are the same relation, a node is not both operands of its parent,  *)
-      (* a second operand exists only with a first one, and following astParent always ends at a root (no       *)
-      (* cycle).  "At most one parent" is then implied: a token has one astParent attribute and every node that *)
-      (* lists it as an operand must be that parent.                                                            *)
+      (* and following astParent always ends at a root (no cycle).  "At most one parent" is then implied: a      *)
+      (* token has one astParent attribute and every node that lists it as an operand must be that parent.       *)
+      (* NOT demanded: "a second operand only together with a first one".  cppcheck's own convention breaks it   *)
+      (* for "for ( ; ; )" (the first ';' has the second ';' as astOperand2 and no astOperand1: test/cfg/qt.cpp) *)
+      (* and the property statement does not ask for it.                                                         *)
       InAst == {i \in DOMAIN tok : ~Null(tok[i].astParent) \/ ~Null(tok[i].astOperand1) \/ ~Null(tok[i].astOperand2)}
       OperandBack(t, x) == Null(x) \/ (x \in T /\ Tok(x).astParent = t.id)
       ParentBack(t) == Null(t.astParent) \/ (t.astParent \in T /\ (Tok(t.astParent).astOperand1 = t.id \/ Tok(t.astParent).astOperand2 = t.id))
@@ -135,7 +137,6 @@ Judge(a) ==
         {"token " \o tok[i].id \o " '" \o tok[i].str \o "'" :
             i \in {j \in InAst : LET t == tok[j]
                                  IN  ~OperandBack(t, t.astOperand1) \/ ~OperandBack(t, t.astOperand2) \/ ~ParentBack(t)
-                                     \/ (~Null(t.astOperand2) /\ Null(t.astOperand1))
                                      \/ (~Null(t.astOperand1) /\ t.astOperand1 = t.astOperand2)
                                      \/ t.astParent = t.id
                                      \/ ~Climb(t.astParent, n)}}
@@ -150,15 +151,21 @@ Judge(a) ==
                      \/ Null(u.bodyStart) # Null(u.bodyEnd)
                      \/ (~Null(u.bodyStart) /\ u.bodyStart \in T /\ u.bodyEnd \in T /\ ~(pos[u.bodyStart] < pos[u.bodyEnd]))}}
 
-      (* VarDeclUse: a token that refers to a variable carries a variable id; all tokens of one variable carry  *)
-      (* the same id, the declaration's name token included, and one id never names two variables.              *)
-      uses == {<<t.variable, t.varId>> : t \in {u \in Range(tok) : ~Null(u.variable)}}
-      decl == {<<v.id, Tok(v.nameToken).varId>> : v \in {u \in Range(a.variables) : ~Null(u.nameToken) /\ u.nameToken \in T}}
-      both == uses \cup {p \in decl : p[2] # 0}
+      (* VarDeclUse: a token that refers to a variable carries a variable id, and one id never names two         *)
+      (* variables.  All tokens of one variable carry the id of its declaration (the id of the name token),      *)
+      (* except member accesses "x . m": there cppcheck deliberately numbers every (object, member) pair with an *)
+      (* id of its own (Tokenizer::setVarIdStructMembers), so only "one id, one variable" is demanded of them.   *)
+      withVar == {i \in DOMAIN tok : ~Null(tok[i].variable)}
+      uses    == {<<tok[i].variable, tok[i].varId>> : i \in withVar}
+      direct  == {<<tok[i].variable, tok[i].varId>> : i \in {k \in withVar : k = 1 \/ tok[k-1].str # "."}}
+      decl    == {<<v.id, Tok(v.nameToken).varId>> : v \in {u \in Range(a.variables) : ~Null(u.nameToken) /\ u.nameToken \in T}}
+      declNz  == {p \in decl : p[2] # 0}
       VarDeclUse ==
         IF \E p \in uses : p[2] <= 0 THEN {"token with a variable but without varId: variable " \o (CHOOSE p \in uses : p[2] <= 0)[1]}
-        ELSE IF Cardinality({p[1] : p \in both}) # Cardinality(both) THEN {"one variable, two variable ids"}
-        ELSE IF Cardinality({p[2] : p \in both}) # Cardinality(both) THEN {"one variable id, two variables"}
+        ELSE IF Cardinality({p[1] : p \in direct \cup declNz}) # Cardinality(direct \cup declNz)
+             THEN {"one variable, two variable ids: " \o (CHOOSE p \in direct \cup declNz : \E q \in direct \cup declNz : q[1] = p[1] /\ q[2] # p[2])[1]}
+        ELSE IF Cardinality({p[2] : p \in uses \cup declNz}) # Cardinality(uses \cup declNz)
+             THEN {"one variable id, two variables: " \o ToString((CHOOSE p \in uses \cup declNz : \E q \in uses \cup declNz : q[2] = p[2] /\ q[1] # p[1])[2])}
         ELSE {}
   IN  [IdsUnique |-> IdsUnique, RefsResolve |-> RefsResolve, LinksSymmetric |-> LinksSymmetric, LinksNested |-> LinksNested,
        AstForest |-> AstForest, ScopeTree |-> ScopeTree, VarDeclUse |-> VarDeclUse]
@@ -234,8 +241,8 @@ Verdict(d) ==
            badInv == IF d.hasA THEN SelectSeq(InvNames, LAMBDA nm : j[nm] # {}) ELSE <<>>
            whyInv == IF d.hasA THEN [k \in DOMAIN badInv |-> badInv[k] \o ": " \o Some(j[badInv[k]])[1]] ELSE <<>>
            \* the addon library must load the file and see the same configurations
-           loads == d.addonerror = "" /\ d.ncfgA = d.ncfgB /\ d.hasA /\ d.hasB
-           sg    == IF loads THEN SameGraph(d.a, d.b) ELSE {}
+           loads == d.addonerror = "" /\ d.ncfgA = d.ncfgB /\ d.hasA = d.hasB
+           sg    == IF loads /\ d.hasA THEN SameGraph(d.a, d.b) ELSE {}
        IN  [bad |-> badInv \o (IF ~loads THEN <<"AddonLoads">> ELSE <<>>) \o (IF sg # {} THEN <<"SameGraph">> ELSE <<>>),
             why |-> whyInv \o (IF ~loads THEN <<"AddonLoads: " \o d.addonerror \o " configurations " \o ToString(d.ncfgA) \o "/" \o ToString(d.ncfgB)>> ELSE <<>>)
                            \o [k \in DOMAIN Some(sg) |-> "SameGraph: " \o Some(sg)[k]]]
